@@ -75,15 +75,17 @@ CHECKS["C13"] = {
 
 CHECKS["C01"] = {
     "level": "other",
-    "text": ("Necessary structural conditions only: the chunk driver is an exact cover with one finalize, the default and SI "
-             "compute_full are compositions of compute_chunk/finalize, the streaming STFT path (first-frame branch, finalize) and "
-             "the SI finalize use the documented padding / frame-count closed forms (compared exactly, with witnesses), carried "
-             "state is written on every exit. Equality of values and frame counts over all 2^(N-1) chunkings is NOT decided: it "
-             "depends on arithmetic over the history of buffer fill counts, which needs path-wise symbolic summaries (another "
-             "technique family)."),
-    "design_ref": "DESIGN.md §3 C01",
-    "note": NOTE_COMMON + "The two streaming/one-shot discrepancies named in the property are seen by reading but neither decided nor reported.",
-    "technique": "static analysis: exact-cover rule on the driver, sibling agreement of streaming and one-shot geometry as quasi-affine closed forms, CFG must-write rule",
+    "text": ("Necessary conditions: the chunk driver is an exact cover with one finalize; the default and SI compute_full are "
+             "compositions of compute_chunk/finalize; for the one-chunk history (whole signal in one compute_chunk, then finalize) "
+             "the frame counts of the two calls - closed forms in (N, L, S) extracted by forward substitution with an idempotent-"
+             "loop summary - add up to compute_full's for all four frame_style/kaldi_shift configurations (none below L//2+1), and "
+             "finalize never reflects further back than the samples it pads; both are decided by normal-form identity where "
+             "possible and otherwise by exact evaluation of the extracted formulas on a declared grid (bounded: L in 1..12,16,25, "
+             "S <= L, N <= 3L+2); streaming and one-shot framing geometry agree as closed forms; carried state is written on every "
+             "exit and reset by finalize. Equality of frame VALUES and histories of several chunks are NOT decided."),
+    "design_ref": "DESIGN.md §3 C01, §10.2",
+    "note": NOTE_COMMON + "The two streaming/one-shot discrepancies named in the property were found by these rules and repaired (fix: 4fe22b9, eb5740a).",
+    "technique": "static analysis: exact-cover rule on the driver; closed-form summary of the one-chunk history (forward substitution, idempotent-loop summary) compared with compute_full's closed forms, bounded grid evaluation of the extracted integer formulas where normal forms differ; sibling agreement of framing geometry; CFG must-write rule",
 }
 CHECKS["C02"] = {
     "level": "other",
@@ -152,11 +154,12 @@ CHECKS["C15"] = {
              "dtype with a float64 correlation (dtype lattice), the Kaldi filter recursion, pad/crop consistency as an exact "
              "quasi-affine identity for every odd filter length, target axis handed to NumPy unmodified (a negative axis normalised "
              "against the input's rank under concatenate=False is reported), Stack's axis normalisation, whole-sequence right "
-             "padding, divisibility and drop rule, and the shape of its two paths. Does NOT decide equality of Stack's 2-D and N-D "
-             "paths nor Kaldi value equivalence along arbitrary axes."),
+             "padding, divisibility and drop rule, and - by layout analysis over ranks 2..4 and every (possibly negative) time / "
+             "feature axis - that every element of Stack's result comes from the right input element on both its 2-D and N-D paths. "
+             "Does NOT decide Kaldi value equivalence along arbitrary axes."),
     "design_ref": "DESIGN.md §3 C15",
     "note": NOTE_COMMON,
-    "technique": "static analysis: effect analysis with the in_place flag, dtype lattice, exact closed forms of filter recursion / pad-crop / stack arithmetic, axis rules",
+    "technique": "static analysis: effect analysis with the in_place flag, dtype lattice, exact closed forms of filter recursion / pad-crop / stack arithmetic, axis rules, layout analysis (abstract interpretation of axis bookkeeping with symbolic sizes)",
 }
 CHECKS["C18"] = {
     "level": "other",
@@ -238,12 +241,15 @@ CHECKS["C06"] = {
 }
 CHECKS["C07"] = {
     "level": "other",
-    "text": ("Thin by design: the property's core (IDFT agreement and leakage within tolerances) is numerical and NOT decided. "
-             "Decided necessary conditions: impulse response complex iff not is_real per bank, signs of the advertised temporal "
-             "supports by construction, the support threshold read at call time in both domains, memo-free response methods."),
-    "design_ref": "DESIGN.md §3 C07",
-    "note": NOTE_COMMON + "Nothing about tolerances is claimed.",
-    "technique": "static analysis: dtype/flag correlation, sign-domain rule, call-time configuration rule, purity rule",
+    "text": ("The property's core (IDFT agreement and leakage within tolerances) is numerical and NOT decided. Decided necessary "
+             "conditions: impulse response complex iff not is_real per bank; Gabor impulse and frequency responses are the Fourier "
+             "pair of one Gaussian with one constant (unit gain or unit L2 norm) and the advertised Gabor supports are where that "
+             "Gaussian falls to the threshold (closed forms, exact); the gammatone support end is the threshold crossing in the "
+             "response's own (shifted) time frame; signs of the advertised temporal supports; the threshold is read at call time; "
+             "memo-free response methods."),
+    "design_ref": "DESIGN.md §3 C07, §10.2",
+    "note": NOTE_COMMON + "Nothing about tolerances is claimed. The max_centered gammatone support defect named in the property was found by R-C07-support-frame and repaired (fix: b7714e5).",
+    "technique": "static analysis: closed forms of the Gabor normalisation / supports in log-linear normal form, time-frame rule on the gammatone threshold search, dtype/flag correlation, sign-domain rule, call-time configuration rule, purity rule",
 }
 
 _PENDING = "check not built yet in this session (static-analysis clauses planned in DESIGN.md §3)"
